@@ -9,6 +9,9 @@ Sub-checks
 ----------
 sus            generated weights/sizes/generators, offsets anywhere in [2^-36, 1-2^-36] of the pointer spacing
 sus_boundary   scripted offsets within 2^-40 * ptr_dist of 0 or of ptr_dist (finding F-C17-a lives here)
+sus_total      weight vectors whose total is T*(1 +- dev), T a round value (1, 1/2, 2, 10, 100, 1000, 10^6, k, 1/k ...),
+               dev from 1e-16 to 2e-2 (decimals that do not quite add up, edited / rescaled / float32-rounded normalised
+               vectors), with 10 ... 2.5 million draws chosen so that k*dev is 1/2 ... 200 in most cases
 tiled          tiled_choice, both replace modes, optional p
 tiled_docforms the two documented argument forms ``a`` Integral and ``size=None`` (finding F-C17-b)
 axis_shuffle   arrays <= 4-D, axis int / tuple (never all axes)
@@ -59,6 +62,10 @@ ASSUMPTIONS = [
     "on the boundary 9) an integer expectation m may come out as m-1 or m+1 and the range is widened accordingly",
     "SUS boundary sub-check: offsets within 2^-40 of an end of [0, ptr_dist); only output shape, membership, "
     "zero-weight exclusion and the widened floor/ceil range (integer expectations +-1) are asserted there",
+    "SUS totals sub-check: n <= 10 float64 weights (proportions of 1..1000, ties, zeros) whose exact total is "
+    "T*(1+-dev) with T in {1, 1/2, 2, 10, 100, 1000, 1/10, 1/1000, 10^6, k, 1/k} and dev <= 2 %; 10 <= k <= 2.5e6 in "
+    "1-D/2-D/3-D shapes; the same floor/ceil range with the slack 64*n*k*2^-52 (at k = 2.5e6, n = 10: 3.6e-7 of a draw); "
+    "an expectation that is an exact integer admits +-1 there (no pointer guard is evaluated for millions of pointers)",
     "tiled_choice(replace=False, p): p has at least `remainder` non-zero entries (numpy rejects the call otherwise)",
     "axis_shuffle: axes are non-negative, distinct, and never all axes of the array (the function shuffles along "
     "the first axis that is NOT listed; negative axes are not documented and are not generated)",
@@ -425,6 +432,184 @@ def check_sus_boundary(case, ctx):
         out = stochastic_universal_sampling(a, p, size, rng)
     ctx.label("no_exception")
     sus_clauses(out, w, n, size, k, a, p, e, ctx, False, "sus_boundary.")
+
+
+# ------------------------------------------------------------------------------------------------ SUS: totals near a round value
+# Weight vectors whose TOTAL is T*(1 +- dev) for a "round" T (1 most of the time: probabilities written with a few decimals,
+# normalised vectors that were edited, scaled or rounded to float32 afterwards; also 1/2, 2, 10, 100 (percentages), 1000,
+# 1/10, 1/1000, 10^6, k and 1/k) and a relative deviation dev between 1e-16 and 2e-2, combined with 10 ... 2.5 million
+# draws.  An expected count is k*w_i/sum(w): a relative error dev of the total moves it by k*dev*w_i/sum(w) draws, so
+# whether the total is *honoured exactly* (rather than taken for the round value it is close to) shows in the floor/ceil
+# clause as soon as k*dev reaches a few units.  The draw count is therefore tied to the deviation (k*dev from 1/2 to
+# 200) in most cases.  Cost: the code under test walks k pointers in Python (about 0.7 s per million); the oracle needs n
+# exact rational expectations and n vectorised counts.
+TOTAL_KMAX = 2500000
+TOTAL_TARGETS = ("1", "1", "1", "1", "1", "1", "1/2", "2", "10", "100", "100", "1000", "1/1000", "1/10", "1000000",
+                 "k", "1/k")
+TOTAL_MODES = ("scaled", "scaled", "scaled", "one_entry", "decimal", "decimal", "decimal", "float32")
+TOTAL_DEV_EXP = (2, 3, 3, 4, 4, 5, 5, 5, 5, 5, 6, 6, 7, 8, 10, 12, 14, 16)
+TOTAL_DEV_MANT = ("1", "1", "1", "2", "5", "3/2", "3", "7", "99/10")
+TOTAL_KDEV = ("1/2", "1", "3/2", "2", "3", "4", "6", "8", "16", "50", "200")
+_K_BUCKETS = ([(1.0, 3.5)] * 7 + [(3.5, 5.0)] * 6 + [(5.0, 5.8)] * 5 + [(5.8, math.log10(TOTAL_KMAX))] * 2)
+
+
+@st.composite
+def sus_total_case(draw):
+    n = draw(st.sampled_from([2, 3, 3, 3, 4, 5, 6, 8, 10]))
+    parts = [draw(st.integers(1, 1000)) for _ in range(n)]
+    ties = [[draw(st.integers(0, 99)), draw(st.integers(0, 99))] for _ in range(draw(st.sampled_from([0, 0, 0, 1, 2])))]
+    zeros = [draw(st.integers(0, 99)) for _ in range(draw(st.sampled_from([0, 0, 0, 1, 2])))]
+    lo, hi = draw(st.sampled_from(_K_BUCKETS))
+    k = min(TOTAL_KMAX, max(10, int(round(10.0 ** draw(st.floats(lo, hi))))))
+    rng = draw(st.one_of(real_rng, real_rng,
+                         st.builds(lambda s, p: {"kind": "scripted", "seed": s, "place": p}, _seed, safe_place)))
+    return {"parts": parts, "ties": ties, "zeros": zeros, "force": draw(st.integers(0, 99)), "k": k,
+            "mode": draw(st.sampled_from(TOTAL_MODES)), "target": draw(st.sampled_from(TOTAL_TARGETS)),
+            "kdev": draw(st.sampled_from(TOTAL_KDEV)), "sign": draw(st.sampled_from([-1, 1])),
+            "decimals": draw(st.integers(3, 8)), "units_off": draw(st.sampled_from([1, 1, 1, 2, 3, 5, 9, 10, 11, 50, 99])),
+            "k_from": draw(st.sampled_from(["dev", "dev", "dev", "k"])),
+            "dev_exp": draw(st.sampled_from(TOTAL_DEV_EXP)), "dev_mant": draw(st.sampled_from(TOTAL_DEV_MANT)),
+            "entry": draw(st.integers(0, 99)),
+            "size_form": draw(st.sampled_from(["int", "int", "1d", "2d", "2d", "3d"])),
+            "rows": draw(st.sampled_from([1, 2, 3, 4, 5, 7, 8, 10, 16, 100, 1000])),
+            "rng": rng, "labels": draw(st.sampled_from(["arange", "offset"]))}
+
+
+def total_shape(form, rows, k0):
+    """size argument (int or list) with about k0 draws in the requested form, and the exact number of draws"""
+    k0, rows = int(k0), max(1, int(rows))
+    if form == "int":
+        return k0, k0
+    if form == "1d":
+        return [k0], k0
+    if form == "2d":
+        r = min(rows, k0)
+        c = max(1, k0 // r)
+        return [r, c], r * c
+    r = min(rows, max(1, k0 // 2))
+    c = max(1, k0 // (2 * r))
+    return [2, r, c], 2 * r * c
+
+
+def build_total(case):
+    """-> (weights as python floats, size argument, k, round value T, exact relative deviation of the total from T).
+
+    proportions m_i/M (integers, ties and zeros forced as in the other SUS sub-checks) are turned into weights by
+    scaled     w_i = T*(1 +- d)*m_i/M, every weight rounded once from the rational number
+    one_entry  w_i = T*m_i/M, one positive entry moved by +-d*T (a normalised vector edited afterwards)
+    decimal    probabilities written with 3-8 decimals whose units add up to 10^D +- j (j = 1 ... 99, at most 2 %),
+               times T:  d = j/10^D
+    float32    T*m_i/M rounded to float32 and passed as float64 (total off by about 1e-8)
+    Deviation and number of draws: with k_from == "dev" the deviation comes first (d = mantissa*10^-x, x = 2 ... 16)
+    and the number of draws is kdev/d when that is affordable (<= TOTAL_KMAX; otherwise the drawn k is used); with
+    k_from == "k" the drawn k comes first and d = kdev/k (scaled, one_entry).  d is at most 1/50.
+    """
+    m = [int(x) for x in case["parts"]]
+    n = len(m)
+    for s_, d_ in case["ties"]:
+        m[d_ % n] = m[s_ % n]
+    for z in case["zeros"]:
+        m[z % n] = 0
+    if not any(x > 0 for x in m):
+        m[case["force"] % n] = max(1, int(case["parts"][case["force"] % n]))
+    mode = case["mode"]
+    sgn = 1 if int(case["sign"]) > 0 else -1
+    kdev = Fraction(case["kdev"])
+    k0 = int(case["k"])
+    unit = 10 ** int(case["decimals"])
+    off = max(1, min(int(case["units_off"]), unit // 50))
+    d = Fraction(off, unit) if mode == "decimal" else \
+        min(Fraction(case["dev_mant"]) / 10 ** int(case["dev_exp"]), Fraction(1, 50))
+    if case["k_from"] == "dev" and mode != "float32":
+        kk = math.ceil(kdev / d)
+        if 10 <= kk <= TOTAL_KMAX:
+            k0 = kk
+    size, k = total_shape(case["size_form"], case["rows"], k0)
+    T = Fraction(k) if case["target"] == "k" else Fraction(1, k) if case["target"] == "1/k" else Fraction(case["target"])
+    M = sum(m)
+    b = [Fraction(x, M) for x in m]
+    if case["k_from"] != "dev":
+        d = min(kdev / k, Fraction(1, 50))
+    if mode == "scaled":
+        w = [float(x * T * (1 + sgn * d)) for x in b]
+    elif mode == "one_entry":
+        pos = [i for i in range(n) if m[i] > 0]
+        i = pos[int(case["entry"]) % len(pos)]
+        if b[i] + sgn * d <= 0:
+            sgn = 1
+        w = [float(x * T) for x in b]
+        w[i] = float((b[i] + sgn * d) * T)
+    elif mode == "decimal":
+        u = [int(x * unit) for x in b]                   # floor; zero proportions stay zero
+        big = max(range(n), key=lambda i: u[i])
+        u[big] += unit + sgn * off - sum(u)              # >= unit/n - n - off > 0
+        w = [float(Fraction(x, unit) * T) for x in u]
+    elif mode == "float32":
+        w = [float(numpy.float32(float(x * T))) for x in b]
+    else:
+        raise ValueError(mode)
+    dev = abs(sum(Fraction(x) for x in w) / T - 1)
+    return w, size, k, T, dev
+
+
+def check_sus_total(case, ctx):
+    w, size_spec, k, T, dev = build_total(case)
+    n = len(w)
+    size = _size_arg(size_spec)
+    a = int_labels(n, case["labels"], "int64")
+    p = numpy.array(w, dtype="float64")
+    rng = make_rng(case["rng"])
+    e = sus_ref.expected_counts(w, k)
+    npos = len(set(x for x in w if x > 0))
+    kd = k * dev
+    ctx.label("rng=" + case["rng"]["kind"])
+    ctx.label("mode=" + case["mode"])
+    ctx.label("total_near=" + case["target"])
+    ctx.label("total_near_a_round_value_other_than_1", case["target"] != "1")
+    ctx.label("size_form=" + ("int" if isinstance(size, int) else "%dd" % len(size)))
+    ctx.label("total_is_exactly_round", dev == 0)
+    ctx.label("total_above_round_value", sum(Fraction(x) for x in w) > T)
+    ctx.label("total_below_round_value", sum(Fraction(x) for x in w) < T)
+    if dev > 0:
+        ctx.label("dev~1e%+03d" % math.floor(math.log10(float(dev))))
+    ctx.label("dev<=1e-12", 0 < dev <= Fraction(1, 10 ** 12))
+    ctx.label("dev_within_1e-7..1e-5", Fraction(1, 10 ** 7) <= dev <= Fraction(1, 10 ** 5))
+    ctx.label("k*dev>=1", kd >= 1)
+    ctx.label("k*dev>=4", kd >= 4)
+    ctx.label("k*dev>=2_and_dev<=1e-5", kd >= 2 and dev <= Fraction(1, 10 ** 5))
+    ctx.label("k*dev>=2_and_dev<=1e-3", kd >= 2 and dev <= Fraction(1, 10 ** 3))
+    ctx.label("k>=1e5", k >= 10 ** 5)
+    ctx.label("k>=1e6", k >= 10 ** 6)
+    ctx.label("has_zero_weight", any(x == 0 for x in w))
+    ctx.label("has_tied_weights", len(set(w)) < n)
+    ctx.note("k", k)
+    ctx.note("dev", float(dev))
+    ctx.nontrivial(npos >= 2 and kd >= 1)
+    p0 = p.copy()
+    out = stochastic_universal_sampling(a, p, size, rng)
+    shape = (size,) if isinstance(size, int) else tuple(size)
+    ctx.check(isinstance(out, numpy.ndarray) and out.shape == shape, "sus_total.shape",
+              lambda: "shape %s, requested %s" % (getattr(out, "shape", None), shape))
+    flat = numpy.asarray(out).ravel()
+    counts = [int(numpy.count_nonzero(flat == lab)) for lab in a]        # the labels are distinct
+    ctx.check(sum(counts) == flat.size, "sus_total.draws_are_elements_of_a",
+              lambda: "%d of %d draws are not elements of a" % (flat.size - sum(counts), flat.size))
+    ctx.check(flat.size == k, "sus_total.number_of_draws", "%d draws, %d requested" % (flat.size, k))
+    zero_drawn = [i for i in range(n) if w[i] == 0.0 and counts[i] > 0]
+    ctx.check(not zero_drawn, "sus_total.zero_weight_element_drawn",
+              lambda: "weights %s size %s counts %s" % (w, size, counts))
+    # floor/ceil of the exact rational expectation; an expectation within rounding noise of an integer (64*n*k ulp,
+    # the noise of k pointer positions and n cumulative sums grows linearly with k) admits the neighbour on that side;
+    # exact-integer expectations are not asserted exactly here (that is done in `sus` with the pointer guard)
+    slack = Fraction(64 * n * k) * Fraction(EPS)
+    bounds = sus_ref.count_bounds(w, k, slack, strict_integer=False)
+    bad = [i for i in range(n) if not bounds[i][0] <= counts[i] <= bounds[i][1]]
+    ctx.check(not bad, "sus_total.count_is_floor_or_ceil_of_expectation",
+              lambda: "weights %s (total = %s*(1%+.3e)) size %s: counts %s, expected %s, admissible %s (elements %s)"
+              % (w, case["target"], float(sum(Fraction(x) for x in w) / T - 1), size, counts,
+                 ["%.6f" % float(x) for x in e], bounds, bad))
+    ctx.check(numpy.array_equal(p, p0), "sus_total.inputs_mutated")
+
 
 
 # ------------------------------------------------------------------------------------------------ tiled_choice
@@ -1033,6 +1218,16 @@ SUBCHECKS = [
              rule="same weights/sizes with the scripted offset within 2^-40 of an end of [0, ptr_dist) (0, a few ulp, "
                   "2^-e); non-trivial as for sus",
              required_labels=("place=ulps_high", "place=ulps_low", "place=pow2_high", "place=pow2_low")),
+    SubCheck("sus_total", check_sus_total, sus_total_case(), quick=80, thorough=400, shards_quick=6, shrink_s=25.0,
+             rule="generated weight vectors whose total is T*(1+-dev): T = 1 (a third of the cases) or 1/2, 2, 10, 100, "
+                  "1000, 1/10, 1/1000, 10^6, k, 1/k; dev 1e-16..2e-2 from decimals (3-8 places) whose units add up to "
+                  "10^D+-j, normalised vectors scaled by 1+-d / with one entry moved by d / rounded to float32; number of "
+                  "draws 10..2.5e6 (int, 1-D, 2-D, 3-D shapes) tied to the deviation so that k*dev is 1/2..200; "
+                  "non-trivial = >=2 distinct positive weights and k*dev >= 1 (the deviation of the total is worth at "
+                  "least one whole draw)",
+             required_labels=("k*dev>=1", "k*dev>=4", "k*dev>=2_and_dev<=1e-5", "k*dev>=2_and_dev<=1e-3", "dev<=1e-12",
+                              "total_near=1", "total_near_a_round_value_other_than_1", "mode=decimal", "mode=float32",
+                              "k>=1e6", "total_above_round_value", "total_below_round_value", "size_form=2d")),
     SubCheck("tiled", check_tiled, tiled_case(), quick=1500, thorough=6000, shards_quick=2,
              rule="generated option sets 1-8 (arange/labels/repeated values/floats), size int/1-D/2-D <= 40, "
                   "replace, optional p with zeros; non-trivial = without replacement with >=1 whole tile and a remainder",
